@@ -1,6 +1,7 @@
 import Autog.Json
 import Autog.Lemmas.MonitorMachine
 import Autog.Spec.Layering
+import Autog.Lemmas.Contiguous
 import Autog.Tfun
 import Autog.DriverGeom
 /-! The line-protocol driver: one case line in, one verdict line out. -/
@@ -138,6 +139,7 @@ def evalLayout (cfg : Cfg) (es : InEdges) (obs : Json) (heavy : Bool := true) : 
                     else v := v.add "C10" true
                   | _ => v := v.add "C10" true
                   v := v.add "K:ns-certificate" (certOK es y g.nodes.size) "cut values of the final tree do not certify optimality"
+                  v := v.add "K:ns-contiguity-hyp" (Contiguous.unitB es && Contiguous.connB es g.nodes.size) "a weight is not positive, a minimum length is not 1, or the component is not connected"
           | _ => throw "bad stage"
   -- correspondence of the models with the traced run
   if let some cs := fieldOpt obs "comps" then
